@@ -43,6 +43,14 @@ func main() {
 		}
 	case "selftest":
 		os.Exit(mon.SelfTest(true))
+	case "refcheck":
+		n := 200
+		if len(os.Args) > 2 {
+			if v, err := strconv.Atoi(os.Args[2]); err == nil {
+				n = v
+			}
+		}
+		os.Exit(mon.RefCheck(seed(), n, true))
 	case "check":
 		if len(os.Args) < 4 {
 			fmt.Println("usage: xvmon check <Cnn> <quick|thorough>")
